@@ -257,3 +257,9 @@ A(V("c19-vgate-drop-labels", "C19", "designspaceLib/__init__.py", "            o
 A(V("c08-iup-alias", "C08", "ttLib/ttGlyphSet.py", "                    origCoords, control = glyfTable._getCoordinatesAndControls(\n                        self.name, hMetrics, vMetrics\n                    )", "                    origCoords, control = coordinates, _", "IUP-ref"))
 A(V("c10-cache-conditional-reset", "C10", "varLib/models.py", "        self.reverseMapping = [locations.index(l) for l in self.locations]\n        self._subModels = {}\n        return new_list", "        self.reverseMapping = [locations.index(l) for l in self.locations]\n        if not new_list:\n            self._subModels = {}\n        return new_list", "CACHE-INV"))
 A(V("c02-fvar-not-all-benign", "C02", "ttLib/tables/_f_v_a_r.py", "        includePostScriptNames = any(\n            instance.postscriptNameID != 0xFFFF for instance in self.instances\n        )", "        includePostScriptNames = not all(\n            instance.postscriptNameID == 0xFFFF for instance in self.instances\n        )", None, expect=0))
+A(V("c15-sbs-treeheight", "C15", "misc/iftSparseBitSet.py", "    while capacity <= maxValue:", "    while capacity < maxValue:", "SBS"))
+A(V("c15-sbs-header-mask", "C15", "misc/iftSparseBitSet.py", "    height = (headerByte >> 2) & 0x1F", "    height = (headerByte >> 2) & 0x0F", "SBS"))
+A(V("c15-sbs-le32", "C15", "misc/iftSparseBitSet.py", "            self.data.append((value >> 16) & 0xFF)\n            self.data.append((value >> 24) & 0xFF)", "            self.data.append((value >> 24) & 0xFF)\n            self.data.append((value >> 16) & 0xFF)", None, expect=0))
+A(V("c15-txt-nibbles", "C15", "misc/textTools.py", "        r = r + h[(i >> 4) & 0xF] + h[i & 0xF]", "        r = r + h[i & 0xF] + h[(i >> 4) & 0xF]", "TXT-pair"))
+A(V("c15-txt-pad", "C15", "misc/textTools.py", '            data += b"\\0" * (size - remainder)', '            data += b"\\0" * remainder', "TXT-pair"))
+A(V("c15-agl-lower", "C15", "agl.py", "    if any(c >= 0xD800 and c <= 0xDFFF for c in chars):", "    if any(c > 0xD800 and c <= 0xDFFF for c in chars):", "AGL-sur"))
